@@ -101,10 +101,16 @@ struct All16 {
     unsigned char pop[65536]{};
     std::uint16_t bs[65536]{}, bsf[65536]{};
 };
+// clang 14's constant evaluator needs ~40 s for this table (g++: 2 s): with clang the op answers `skip`
+#if defined(__clang__)
+constexpr bool HAVE_ALL16 = false;
+#else
+constexpr bool HAVE_ALL16 = true;
+#endif
 constexpr auto compute_all16()
 {
     All16 r{};
-    for (unsigned v = 0; v < 65536U; ++v) {
+    for (unsigned v = 0; HAVE_ALL16 && v < 65536U; ++v) {
         auto const x = static_cast<std::uint16_t>(v);
         r.pop[v]     = static_cast<unsigned char>(etl::popcount(x));
         r.bs[v]      = etl::byteswap(x);
@@ -311,13 +317,36 @@ constexpr auto CT_FMA64 = compute_fma<double>(T_FMA64);
 template <typename F, size_t N>
 struct FmodCT {
     fbits_t<F> fmod_[N][N]{}, rem_[N][N]{};
+    bool skip_[N][N]{};
 };
+// finite operands more than 300 binades apart (thousands of loop iterations each): evaluated by g++ only, clang 14's
+// constant evaluator needs ~40 s for them; with clang these pairs answer `skip`
+template <typename F>
+constexpr bool fmod_far(fbits_t<F> a, fbits_t<F> b)
+{
+#if defined(__clang__)
+    constexpr int mw   = sizeof(F) == 4 ? 23 : 52;
+    constexpr int ew   = sizeof(F) == 4 ? 8 : 11;
+    auto const expo    = [](fbits_t<F> v) { return static_cast<int>((v >> mw) & ((fbits_t<F>(1) << ew) - 1)); };
+    int const top      = (1 << ew) - 1;
+    bool const b_zero  = (b & ((fbits_t<F>(1) << (mw + ew)) - 1)) == 0;
+    return expo(a) != top && expo(b) != top && !b_zero && expo(a) - expo(b) > 300;
+#else
+    (void)a;
+    (void)b;
+    return false;
+#endif
+}
 template <typename F, size_t N>
 constexpr auto compute_fmod(fbits_t<F> const (&tab)[N])
 {
     FmodCT<F, N> r{};
     for (size_t i = 0; i < N; ++i) {
         for (size_t j = 0; j < N; ++j) {
+            if (fmod_far<F>(tab[i], tab[j])) {
+                r.skip_[i][j] = true;
+                continue;
+            }
             F const x = to_f<F>(tab[i]);
             F const y = to_f<F>(tab[j]);
             r.fmod_[i][j] = to_b(etl::fmod(x, y));
@@ -784,6 +813,10 @@ bool vh::run_case(std::string const& op, Toks& in, Out& impl, Out& ref)
     if (op == "all16") {
         auto const v = in.num();
         if (v < 0 || v > 65535) { return false; }
+        if (!HAVE_ALL16) {
+            impl.tok("skip");
+            return true;
+        }
         auto const x  = launder(static_cast<std::uint16_t>(v));
         auto const iv = static_cast<size_t>(v);
         impl.tok("ok").num(CT_ALL16.pop[iv]).unum(CT_ALL16.bs[iv]).unum(CT_ALL16.bsf[iv]);
@@ -1054,6 +1087,10 @@ bool vh::run_case(std::string const& op, Toks& in, Out& impl, Out& ref)
             if (!check_val(in, T_FMOD32[i], impl) || !check_val(in, T_FMOD32[j], impl)) { return true; }
             float const x = launder(to_f<float>(T_FMOD32[i]));
             float const y = launder(to_f<float>(T_FMOD32[j]));
+            if (CT_FMOD32.skip_[i][j]) {
+                impl.tok("skip");
+                return true;
+            }
             put_fbits(impl.tok("ok"), rem ? CT_FMOD32.rem_[i][j] : CT_FMOD32.fmod_[i][j], false);
             put_fbits(ref.tok("ok"), to_b(rem ? etl::remainder(x, y) : etl::fmod(x, y)), false);
             return true;
@@ -1062,6 +1099,10 @@ bool vh::run_case(std::string const& op, Toks& in, Out& impl, Out& ref)
             if (!check_val(in, T_FMOD64[i], impl) || !check_val(in, T_FMOD64[j], impl)) { return true; }
             double const x = launder(to_f<double>(T_FMOD64[i]));
             double const y = launder(to_f<double>(T_FMOD64[j]));
+            if (CT_FMOD64.skip_[i][j]) {
+                impl.tok("skip");
+                return true;
+            }
             put_fbits(impl.tok("ok"), rem ? CT_FMOD64.rem_[i][j] : CT_FMOD64.fmod_[i][j], false);
             put_fbits(ref.tok("ok"), to_b(rem ? etl::remainder(x, y) : etl::fmod(x, y)), false);
             return true;
